@@ -379,7 +379,7 @@ class _Control:
                 self.out_of_grammar = True
                 h.r.probes['negative_completion_after_codeless_line'] += 1
             else:
-                self.reply(v + '.end', h.stape.choice((426, 451, 552, 450, 550), 'abort.code'), h.stape.choice(ABORT_TEXTS, 'abort.text'))
+                self.reply(v + '.end', h.stape.choice((426, 451, 552, 450, 550, 221, 225, 200), 'abort.code'), h.stape.choice(ABORT_TEXTS, 'abort.text'))      # (a positive reply other than 226/250 confirms nothing)
             h.r.probes['negative_completion'] += 1
             h.r.faults['ftp_negative_completion'] += 1
         elif mode == 'no_completion':
